@@ -1,7 +1,7 @@
 (* C37 - Command location expansions name the files the command can use.
    This file holds only the statement, the property theorems and their non-vacuity examples. *)
 From Coq Require Import String.
-From PlzV Require Import Base.Harness Gen.CmdReplTables Model.C37 Proof.C37.
+From PlzV Require Import Base.Harness Gen.CmdReplTables Model.C37 Model.C37_Ext Proof.C37 Proof.C37_Ext.
 From PlzV Require Model.C20.
 Local Open Scope list_scope.
 
@@ -177,3 +177,84 @@ Proof.
   - right. left. reflexivity.
   - intros [H|[H|[]]]; discriminate H.
 Qed.
+
+(* ---- extension: require/provide, and $(worker ...) commands (Model/C37_Ext.v) ------------------------------------------ *)
+
+(* Dependency resolution with require/provide (resolve interprets the guards of provideFor regenerated from the source):
+   - a sequence naming a label the rule lists as a tool, or as data, expands exactly as in the world without any
+     provides (so every clause of C37_partial holds for it: it names the tool's own outputs), whatever the tool
+     provides and whatever the rule requires;
+   - every dependency a label resolves to is the declared one or is listed in its provides under a language the rule
+     requires (induction on the requires);
+   - when nothing the rule declares is replaced (in particular without requires) the whole expansion of every command
+     is the one of Model/C37.v. *)
+Definition C37_provides_statement : Prop :=
+  (forall w px test fl inp,
+     (forall l, C20.try_parse (fst (split_entry_point inp)) (w_pkg w) [] = C20.Parsed l ->
+                is_tool w (label_key l) = true \/ existsb (lbl_eqb (label_key l)) (px_data px) = true) ->
+     replace_sequence_p w px test fl inp = replace_sequence w test fl inp)
+  /\ (forall w px k, is_tool w k = true -> resolve w px k = [k])
+  /\ (forall w px k k2, In k2 (resolve w px k) ->
+        k2 = k \/ exists pv r l, assoc_lbl k (px_provides px) = Some pv /\ In r (px_requires px) /\ assoc r pv = Some l /\ In k2 l)
+  /\ (forall w px test cmd, unresolved w px -> expand_cmd_p w px test cmd = expand_cmd w test cmd)
+  /\ (forall w px, is_nil (px_requires px) = true -> unresolved w px).
+
+Theorem C37_provides : C37_provides_statement.
+Proof.
+  exact (conj tool_sequence_not_substituted (conj resolve_tool (conj resolve_sound (conj expand_cmd_p_same no_requires_unresolved)))).
+Qed.
+Print Assumptions C37_provides.
+
+(* $(worker ...) commands (worker_and_args interprets the body of workerAndArgs regenerated from the source):
+   - a command WorkerCommandAndArgs / TestWorkerCommand accepts has BOTH halves expanded by replaceSequencesInternal:
+     the arguments are the expansion of the trimmed text before && and the local command the expansion of the text
+     after it, so a sequence that is rejected in either half makes the whole command an error;
+   - it never accepts while handing out a value that comes from a failed expansion;
+   - the same for the local command ReplaceTestSequences returns for a $(worker test command;
+   - for EVERY straight-line program over the error variable that never starts an expansion while an unchecked error is
+     pending and returns the error unless none can be pending: if it accepts, every expansion it performed succeeded
+     (induction on the program); workerAndArgs as regenerated is such a program;
+   - a pass that accepts a text has accepted every sequence it matched in it (induction on the text). *)
+Definition C37_worker_statement : Prop :=
+  (forall w px cmd t a l, worker_and_args w px cmd = WOk t a l ->
+     match find_worker cmd with
+     | None => t = [] /\ a = [] /\ expand_cmd_p w px false cmd = ROk l
+     | Some (m1, (m2, m3, m4)) =>
+         m1 = [] /\ expand_cmd_p w px false (trim_space m3) = ROk a /\ expand_cmd_p w px false m4 = ROk l
+         /\ worker_seq w px m2 = ROk t
+     end)
+  /\ (forall w px cmd, worker_and_args w px cmd <> WBogus)
+  /\ (forall w px cmd t a l, is_nil cmd = false -> has_prefix (s test_worker_prefix) cmd = true ->
+        replace_test_sequences w px cmd = WOk t a l -> exists t' a', worker_and_args w px cmd = WOk t' a' l)
+  /\ (forall exp wk steps pending sl err worker t a l,
+        safe_prog pending steps = true -> (err = true -> pending = true) ->
+        run_steps exp wk steps sl err worker = WOk t a l ->
+        err = false /\ forall p, In p (parts_of steps) -> is_ok (exp p) = true)
+  /\ (safe_prog false worker_steps = true /\ parts_of worker_steps = [PArgsTrim; PLocal])
+  /\ (forall pre off f x skip o, scan pre off f x skip = ROk o ->
+        forall a, In a (matched_args pre off x skip) -> is_ok (f a) = true).
+
+Theorem C37_worker : C37_worker_statement.
+Proof.
+  exact (conj worker_accepts_only_expanded (conj worker_never_bogus (conj test_worker_accepts_only_expanded
+        (conj run_safe (conj (conj worker_steps_safe worker_steps_parts) scan_ok_all))))).
+Qed.
+Print Assumptions C37_worker.
+
+(* Non-vacuity: a code generator with provides = {'go': ':gen_lib'} used as a tool by a rule with requires = ['go']
+   expands to the tool itself while a plain dep with the same provides is replaced; a worker command with a sequence
+   naming a non-dependency before && is an error although its local part is fine, a valid one gives both halves. *)
+Example C37_ext_nonvacuous :
+  is_tool w_prov (t_lbl gen_tool) = true
+  /\ expand_cmd_p w_prov px_prov false (s "$(location //tools:gen) $(exe //tools:gen)")
+     = ROk (s "/r/plz-out/bin/tools/gen.sh /r/plz-out/bin/tools/gen.sh")
+  /\ resolve w_prov px_prov (t_lbl some_dep) = [t_lbl gen_lib]
+  /\ expand_cmd_p w_prov px_prov false (s "$(location //lib:dep)") = ROk (s "tools/gen_lib.a")
+  /\ worker_and_args w_prov px_prov (s "$(worker //tools:gen) --in $(location //lib:not_a_dep) && echo ok") = WErr
+  /\ expand_cmd_p w_prov px_prov false (s "echo ok") = ROk (s "echo ok")
+  /\ matched_args (pass_prefix "location") 11 (s "--in $(location //lib:not_a_dep)") 0 = [s "//lib:not_a_dep"]
+  /\ worker_and_args w_prov px_prov (s "$(worker //tools:gen) --in $(location //lib:dep) && echo $(locations //tools:gen)")
+     = WOk (s "/r/plz-out/bin/tools/gen.sh") (s "--in tools/gen_lib.a") (s "echo /r/plz-out/bin/tools/gen.sh")
+  /\ find_worker (s "$(worker //tools:gen) --in $(location //lib:dep) && echo $(locations //tools:gen)")
+     = Some ([], (s "//tools:gen", s "--in $(location //lib:dep) ", s "echo $(locations //tools:gen)")).
+Proof. vm_compute. repeat split; reflexivity. Qed.
